@@ -3,7 +3,7 @@ package main
 func init() {
 	reg("C01", &prop{
 		Pkg: "broker", Test: "TestC01", QuickBatches: 4, ThoroughBatches: 32,
-		QuickTimeoutS: 300, ThoroughTimeoutS: 1500, GoMaxProcs: []int{1, 4, 16, 2}, Parallel: 8,
+		QuickTimeoutS: 300, ThoroughTimeoutS: 1500, ThoroughScale: 5, GoMaxProcs: []int{1, 4, 16, 2}, Parallel: 8,
 		Level: "exploration", DesignRef: "DESIGN.md section 4, C01",
 		Technique: "runtime monitoring: recording nodes at the API boundary + hook-traced Sends, offline decomposition checker against a reference model",
 		LevelText: "Exploration by runtime monitoring: thousands of generated configurations/histories x Sends (cancelled at enumerated protocol hooks, seeded yields, GOMAXPROCS 1/2/4/16) are executed on the real Broker; an oracle decides for every Send whether the observed node invocations decompose into exactly the traversals the reference model demands (identity of forwarded events, logical-clock order, at-most-once). Right level because the property quantifies over configurations, histories and schedules that can only be sampled by execution.",
@@ -15,7 +15,7 @@ func init() {
 func init() {
 	reg("C02", &prop{
 		Pkg: "broker", Test: "TestC02", QuickBatches: 8, ThoroughBatches: 48,
-		QuickTimeoutS: 300, ThoroughTimeoutS: 2400, GoMaxProcs: []int{4, 1, 16, 2}, Parallel: 8,
+		QuickTimeoutS: 300, ThoroughTimeoutS: 2400, ThoroughScale: 3, GoMaxProcs: []int{4, 1, 16, 2}, Parallel: 8,
 		Level: "fault_enumeration", DesignRef: "DESIGN.md section 4, C02",
 		Technique: "runtime monitoring with cancel-point enumeration: every outcome vector (success/filtered/error per pipeline, n<=3) x thresholds, the context cancelled synchronously inside every protocol hook of the dispatch; Status/error compared with the node log and a threshold model",
 		LevelText: "Fault enumeration by execution: for every outcome vector of up to 3 pipelines (exhaustive; n=4 sampled in the thorough tier), shared and separate sinks, and threshold pairs in 0..n+1, Send is executed once uncancelled to learn its hook trace and then once per protocol hook with the context cancelled inside that hook (plus before the call). An oracle compares Complete/CompleteSinks/Warnings/err with what the recording nodes really returned and with the thresholds in force. Random registry configurations and random setter/getter/Send sequences over three types cover sharing and the per-type threshold model.",
@@ -24,7 +24,7 @@ func init() {
 	})
 	reg("C03", &prop{
 		Pkg: "broker", Test: "TestC03", QuickBatches: 8, ThoroughBatches: 48,
-		QuickTimeoutS: 400, ThoroughTimeoutS: 2400, GoMaxProcs: []int{4, 2, 16, 1}, Parallel: 8,
+		QuickTimeoutS: 400, ThoroughTimeoutS: 2400, ThoroughScale: 2, GoMaxProcs: []int{4, 2, 16, 1}, Parallel: 8,
 		Level: "fault_enumeration", DesignRef: "DESIGN.md section 4, C03",
 		Technique: "runtime monitoring: gated (blocking) recording nodes, cancellation injected at every protocol hook, goroutine-dump inspector for leaks and blocked-state witnesses, watchdog with three-valued verdict",
 		LevelText: "Fault enumeration by execution: configurations of <=3 pipelines x <=3 inner nodes (+formatter, sink) with outcomes pass/replace/drop/error/block; for each, Send is run never-cancelled, cancelled before the call and cancelled inside each hook hit of the dispatch protocol (all hits in the thorough tier, a seeded sample of 10 in the quick tier), with blocking nodes held at harness gates. Decided at the boundary: Send must return while the gates are still closed once cancelled, must not return before all pipelines finished when never cancelled, and after the gates open no goroutine with graph.process/doProcess frames may remain (two goroutine dumps). Panics end the child process and are reported by the driver.",
@@ -36,7 +36,7 @@ func init() {
 func init() {
 	reg("C06", &prop{
 		Pkg: "broker", Test: "TestC06", QuickBatches: 8, ThoroughBatches: 64,
-		QuickTimeoutS: 400, ThoroughTimeoutS: 3000, GoMaxProcs: []int{2}, Parallel: 16,
+		QuickTimeoutS: 400, ThoroughTimeoutS: 3000, ThoroughScale: 2, GoMaxProcs: []int{2}, Parallel: 16,
 		Level: "exploration", DesignRef: "DESIGN.md section 4, C06",
 		Technique: "runtime monitoring against an executable reference model: every history is executed on the real Broker step by step next to a clean registry model; Close calls are observed per node object; in-use accounting is decided by destructive RemoveNode probes on a replayed copy after every step",
 		LevelText: "Exploration by execution with a reference model: all call histories up to depth 3 (quick) / 4 (thorough) over a reduced alphabet (2 types, 2 pipeline ids, 3 node ids, a node list with a duplicate id) are enumerated exhaustively, one level deeper is sampled, and seeded random histories of up to 60 calls run over the quantifier's full alphabet. After EVERY step the return value, the set of node objects closed (exactly those no remaining pipeline lists, once each), delivery to the remaining pipelines and - on a fresh replay of the prefix - the result of RemoveNode for every id are compared with the model. The property's 'depth 7 exhaustively' is out of reach for execution (22^7 histories); evidence says exhaustive:false and reports the depth reached.",
@@ -48,7 +48,7 @@ func init() {
 func init() {
 	reg("C05", &prop{
 		Pkg: "broker", Test: "TestC05", QuickBatches: 8, ThoroughBatches: 32,
-		QuickTimeoutS: 400, ThoroughTimeoutS: 2400, GoMaxProcs: []int{2}, Parallel: 16,
+		QuickTimeoutS: 400, ThoroughTimeoutS: 2400, ThoroughScale: 20, GoMaxProcs: []int{2}, Parallel: 16,
 		Level: "exploration", DesignRef: "DESIGN.md section 4, C05",
 		Technique: "runtime monitoring against an executable specification predicate (exhaustive over node-type sequences) plus differential observation of replayed histories with and without the failing call",
 		LevelText: "Exploration by execution: (1) the acceptance predicate of the property statement is evaluated next to the real RegisterPipeline for ALL node-type sequences of length 1..5 over {filter, formatter, sink, formatter-filter, unknown 0, unknown 9} (9330 sequences) x {all ids registered, one missing, one empty id, empty pipeline id, empty type, empty list} x {no previous pipeline, previous Allow, previous Deny}; (2) seeded random histories of <=6 calls (+prologue) ending in a failing RegisterPipeline/RegisterNode/RemoveNode or RemovePipelineAndNodes=false are replayed on two fresh brokers with and without the failing call and the externally observable state (what a Send of each type delivers to, IsAnyPipelineRegistered, result class of a destructive RemoveNode probe per node id, which objects get closed) must be identical; IsAnyPipelineRegistered is compared with the model after every step.",
@@ -66,7 +66,7 @@ func init() {
 	})
 	reg("C20", &prop{
 		Pkg: "broker", Test: "TestC20", QuickBatches: 8, ThoroughBatches: 32,
-		QuickTimeoutS: 300, ThoroughTimeoutS: 1800, GoMaxProcs: []int{2}, Parallel: 16,
+		QuickTimeoutS: 300, ThoroughTimeoutS: 1800, ThoroughScale: 20, GoMaxProcs: []int{2}, Parallel: 16,
 		Level: "fault_enumeration", DesignRef: "DESIGN.md section 4, C20",
 		Technique: "runtime monitoring with single-fault enumeration: registry states produced by random histories next to a reference model; Reopen counted per node object; each captured node object is made to fail in turn; Reopen under done contexts",
 		LevelText: "Fault enumeration by execution: registry states reached by seeded random histories of up to 8 calls (+prologue; 3 types, shared nodes, overwritten node ids whose old objects are still captured by older pipeline versions, removed pipelines) are tracked by a reference model that knows which node OBJECTS each registered pipeline captured. Without faults Broker.Reopen must return nil and every captured object's Reopen count must grow; then for EACH captured object in turn its Reopen returns a unique error and Broker.Reopen must return a non-nil error that carries it (errors.Is or its unique token); objects captured by no registered pipeline may fail without consequence. Additionally Broker.Reopen is called with an already cancelled context and with a context that the first node reached cancels: a nil result must still have reached every captured object (a non-nil result under a done context is counted and not judged).",
@@ -78,7 +78,7 @@ func init() {
 func init() {
 	reg("C04", &prop{
 		Pkg: "broker", Test: "TestC04", Race: true, QuickBatches: 9, ThoroughBatches: 48,
-		QuickTimeoutS: 400, ThoroughTimeoutS: 3000, GoMaxProcs: []int{2, 4, 16}, Parallel: 6,
+		QuickTimeoutS: 400, ThoroughTimeoutS: 3000, ThoroughScale: 3, GoMaxProcs: []int{2, 4, 16}, Parallel: 6,
 		Level: "exploration", DesignRef: "DESIGN.md section 4, C04",
 		Technique: "Go race detector over phase-aligned concurrent workloads + offline linearizability checking (porcupine v1.3.0) of recorded call/return histories against per-key sequential models, with versioned marker nodes identifying which registration a Send observed",
 		LevelText: "Exploration by execution under the race detector: many short concurrent histories (2..8 actor goroutines x 30..120 random Broker calls over 2 types / 3 pipeline ids / 4 shared node ids with allow/deny/default policies, plus 1..4 senders, barrier start, GOMAXPROCS 2/4/16) are recorded at the API boundary with a logical clock. Every registered pipeline version is rooted at its own marker node, so per Send the set of versions that saw it is known. Oracles: zero library-attributed race reports, no panic/fatal error; per (type,pipeline id) the sub-history {Register, Remove, RemoveAndNodes, Send-read} must be linearizable w.r.t. a register model with the deny policy (exactly-once after registration returned, never after removal returned, 0/1 while overlapping, never two versions); node-id registers (nondeterministic model for RemovePipelineAndNodes side effects) and threshold registers likewise; a sequential epilogue after quiescence is part of the same history; no node object is closed twice. One registration in six inside the concurrent histories is malformed (no formatter before the sink, or no sink) and must fail; like every failed call it takes no effect in the model, so a Send that is seen by its marker node, or that misses the version it tried to replace, makes the key's history non-linearizable. Marker nodes yield inside Type() 0..3 times (slow node code while a registration is being validated).",
@@ -90,7 +90,7 @@ func init() {
 func init() {
 	reg("C12", &prop{
 		Pkg: "broker", Test: "TestC12", QuickBatches: 8, ThoroughBatches: 32,
-		QuickTimeoutS: 400, ThoroughTimeoutS: 2400, GoMaxProcs: []int{4, 16, 2}, Parallel: 16,
+		QuickTimeoutS: 400, ThoroughTimeoutS: 2400, ThoroughScale: 20, GoMaxProcs: []int{4, 16, 2}, Parallel: 16,
 		Level: "exploration", DesignRef: "DESIGN.md section 4, C12",
 		Technique: "runtime monitoring with schedule forcing: re-entrant nodes and the library's gated filter wired to the same Broker, a writer forced to be parked on the Broker lock (seen in a goroutine dump) before the callback re-enters, watchdog with blocked-state witness from goroutine dumps, probe calls afterwards; writers of three kinds (RegisterNode, threshold setters, pipeline changes on the same event type) and injected failures of the re-entrant Send",
 		LevelText: "Exploration by execution: every Broker operation that runs node code (Send->Process, Reopen->Reopen, RemoveNode/RemovePipelineAndNodes->Close) x a node that re-enters Send on the same Broker from that callback, x the library's gated.Filter with 0..3 pending groups flushing through the same Broker from Close (removed via RemovePipelineAndNodes and via RemovePipeline+RemoveNode) and from Process (expired groups), each with and without a concurrent writer (RegisterNode, or the threshold setters of the outer event type) that the harness first makes sure is parked on a lock; plus refused/failed calls of every kind. After each scenario a probe RegisterNode and a probe Send must return ('never permanently locked') and parked writers must get through. 'Bounded time' is restated as: returns before the watchdog unless the goroutine is provably parked forever (same parked state with library frames in two dumps) - only then a violation; otherwise inconclusive. Added after seeded-change rounds: the waiting writer is, besides RegisterNode and the threshold setters, a RegisterPipeline+RemovePipeline on the very event type whose Send/Reopen/removal is in flight; the gated filter's re-entrant Send is made to fail for the first 1..n groups (as a Broker whose threshold is unmet does) during expiry in Process and during Close from the removal calls; and after every gated scenario a further gateable event is sent through the filter and the pipeline removed, each under the watchdog, so a filter left holding its own lock is seen as a Broker call that never returns.",
